@@ -53,6 +53,10 @@ type BcastRig interface {
 	// Send calls the real Send on the sender's channel object and returns the
 	// sequence number the published message carried.
 	Send(sender, tag string) (uint64, error)
+	// SendFailing calls the real Send while the sender's publisher returns an error
+	// for the next publication attempt (only where BcastTarget.CanFailPublish). It
+	// returns the sequence number the refused message carried and Send's error.
+	SendFailing(sender, tag string) (uint64, error)
 	// SimSend publishes a message of a simulated remote peer with the peer's
 	// next sequence number to the receiving channel.
 	SimSend(sender, tag string) uint64
@@ -72,6 +76,9 @@ type BcastTarget struct {
 	Name      string // "libp2p" | "local"
 	Lifecycle string // "separate" | "inline"
 	Cap       int    // messageHandlerThrottle
+	// CanFailPublish: Send has an error path after the sequence number was taken
+	// (libp2p: the pubsub publisher may refuse the message)
+	CanFailPublish bool
 	// NewRig creates a fresh receiving channel; real are the senders with a
 	// real channel object, sim the simulated remote peers.
 	NewRig func(t testing.TB, real []string, sim []string) BcastRig
@@ -501,7 +508,15 @@ func ReplayBcast(t *testing.T, rep *Report, tg BcastTarget, cases []V) {
 					t.Fatalf("%s: Send failed: %v", tg.Name, err)
 				}
 				if int(n) != m.Get("n").Int() {
-					bad = fmt.Sprintf("step %d: message %d sent on channel %s carried sequence number %d, the specification gives %d", i+1, sentTag, m.Get("s").Str(), n, m.Get("n").Int())
+					bad = fmt.Sprintf("step %d: message %d sent on channel %s carried sequence number %d, the specification gives %d (a sequence number is never attached to two different messages, including messages whose first publication failed)", i+1, sentTag, m.Get("s").Str(), n, m.Get("n").Int())
+					rep.Diverge("replay:"+tg.Name+":seqno", bad, map[string]interface{}{"steps": c.Get("steps").X, "at": i + 1}, m.Get("n").Int(), n)
+					break stepLoop
+				}
+			case "SendFail":
+				sentTag++
+				n, _ := rig.SendFailing(m.Get("s").Str(), fmt.Sprintf("t%d", sentTag))
+				if int(n) != m.Get("n").Int() {
+					bad = fmt.Sprintf("step %d: message %d, whose first publication was refused, carried sequence number %d on channel %s, the specification gives %d", i+1, sentTag, n, m.Get("s").Str(), m.Get("n").Int())
 					rep.Diverge("replay:"+tg.Name+":seqno", bad, map[string]interface{}{"steps": c.Get("steps").X, "at": i + 1}, m.Get("n").Int(), n)
 					break stepLoop
 				}
@@ -829,12 +844,20 @@ func (r *bcastRun) cancel(h string) {
 	r.rec.log(map[string]interface{}{"event": "CancelRet", "h": h})
 }
 
-func (r *bcastRun) send(s string, sim bool, tag string) uint64 {
+func (r *bcastRun) send(s string, sim bool, tag string) uint64 { return r.sendX(s, sim, tag, false) }
+
+// sendX with fail = true makes the sender's publisher refuse the call's own publication.
+func (r *bcastRun) sendX(s string, sim bool, tag string, fail bool) uint64 {
 	c := r.nextCall()
 	call := map[string]interface{}{"event": "SendCall", "c": c, "s": s, "n": 0}
+	if fail {
+		call["fail"] = true
+	}
 	r.rec.log(call)
 	var n uint64
-	if sim {
+	if fail {
+		n, _ = r.rig.SendFailing(s, tag)
+	} else if sim {
 		n = r.rig.SimSend(s, tag)
 	} else {
 		var err error
@@ -1046,6 +1069,12 @@ func RecordBcast(t *testing.T, rep *Report, tg BcastTarget, tr *Tracer, runs int
 		for i := 0; i < nMsg; i++ {
 			share[senders[rnd.Intn(len(senders))]]++
 		}
+		failFirst := withTicks && tg.CanFailPublish
+		if failFirst {
+			// the first Send of s1 is refused by the publisher, a second Send follows, then ticks:
+			// the refused message keeps its number and reaches the handler by retransmission
+			share = map[string]int{"s1": 2}
+		}
 		seeds := map[string]int64{}
 		for _, s := range senders {
 			seeds[s] = rnd.Int63()
@@ -1062,7 +1091,7 @@ func RecordBcast(t *testing.T, rep *Report, tg BcastTarget, tr *Tracer, runs int
 				lr := Rand(seeds[s])
 				var mine []uint64
 				for i := 0; i < k; i++ {
-					n := r.send(s, s == "s3", fmt.Sprintf("%s-%d", s, i))
+					n := r.sendX(s, s == "s3", fmt.Sprintf("%s-%d", s, i), failFirst && i == 0)
 					mine = append(mine, n)
 					published.add(1)
 					for lr.Intn(2) == 0 && !withTicks {
